@@ -5,6 +5,7 @@ pub mod extract;
 pub mod heapmon;
 pub mod inject_ops;
 pub mod inject_ts;
+pub mod introspect;
 pub mod jsread;
 pub mod gen_ops;
 pub mod gen_schema;
@@ -51,6 +52,7 @@ pub fn run_property(ctx: &Ctx, rep: &mut Report) -> Result<(), String> {
         "C12" => props::c12::run(ctx, rep),
         "C13" => props::c13::run(ctx, rep),
         "C14" => props::c14::run(ctx, rep),
+        "C15" => props::c15::run(ctx, rep),
         "C16" => props::c16::run(ctx, rep),
         "C18" => props::c18::run(ctx, rep),
         "C19" => props::c19::run(ctx, rep),
@@ -78,6 +80,7 @@ pub fn replay_case(case: &Value, ctx: &Ctx) -> Result<Vec<Violation>, String> {
         "C12" => Ok(props::c12::replay(case)),
         "C13" => Ok(props::c13::replay(case)),
         "C14" => Ok(props::c14::replay(case, ctx)),
+        "C15" => Ok(props::c15::replay(case, ctx)),
         "C16" => Ok(props::c16::replay(case, ctx)),
         "C18" => Ok(props::c18::replay(case, ctx)),
         "C19" => Ok(props::c19::replay(case)),
